@@ -47,7 +47,7 @@ def gen(rng, idx, tier):
            "store": [rng.choice(["ok", "ok", "ok", "warn", "fail", "raise"]) for _ in range(k + 1)]}
     if op == "move":
         beh["dest"] = "ok" if rng.randrange(10) else rng.choice(["none", "refused", "bad"])
-    return {"op": op, "beh": beh, "msg_id": rng.choice([1, 5, 400]), "max_pdu": 16382,
+    return {"op": op, "beh": beh, "msg_id": rng.choice([0, 1, 5, 400]), "max_pdu": 16382,
             "sched": C.gen_sched(rng, fine_pct=10), "net": C.gen_net(rng)}
 
 
